@@ -1473,8 +1473,12 @@ impl Block {
                 total_number_of_non_fee_transactions += 1;
             }
 
-            if (transaction.is_golden_ticket() || transaction.is_normal_transaction())
+            // every user-originated transaction type pays its fee into the block
+            // (Bound and BlockStake transactions included, or their fee is lost)
+            if !transaction.is_fee_transaction()
                 && !transaction.is_atr_transaction()
+                && !transaction.is_issuance_transaction()
+                && transaction.transaction_type != TransactionType::SPV
             {
                 cv.total_bytes_new += transaction.get_serialized_size() as u64;
                 cv.total_fees_new += transaction.total_fees;
